@@ -23,6 +23,7 @@ inductive StackTop where
   | thrower                 -- the innermost frame's throwing statement
   | rethrow (idx : Nat)     -- the `throw e` statement in the catch block of the rethrowing JS frame with index idx
   | creation                -- the `new Error(..)` expression that made a script-made Error object
+  | genYield (idx : Nat)    -- the `yield` at which the generator of frame idx is suspended when `g.throw(e)` raises e there
   | empty                   -- len(stack) == 0 (captured with an idle vm)
   | other                   -- native frame, creation site of an Error object, any other JS site
   deriving DecidableEq, Repr, Inhabited
@@ -454,6 +455,9 @@ inductive Frame where
   | jit          -- JS `for (x of it) next()` over an iterator whose return() method itself throws
   | jy | jyf     -- generator delegating with `yield*` to a generator whose body calls next; jyf: the yield* is inside try/finally
   | fcs          -- native FunctionCall that ignores the Callable's error (swallows it) and returns normally
+  | jiu          -- JS `for (x of it) next()` over an iterator whose return() raises an UNCATCHABLE error (a native function it
+                 --   calls panics with a *StackOverflowError) while handleThrow closes it
+  | jgt          -- JS `try { next() } catch (e) { log; g.throw(e) }` with g a generator suspended at a yield inside try/finally
   | tg           -- native FunctionCall doing `ex := r.Try(func(){ obj.Get("x") })` on an accessor whose getter is next; panic(ex)
   | pr           -- Promise.resolve().then(next): the rest runs as a promise job
   | jaw          -- async function: `await null; next()`: the rest runs as a promise job
@@ -462,19 +466,19 @@ inductive Frame where
 namespace Frame
 /-- Is the function object that represents this frame a JS function (true) or a native one (false)? -/
 def isJS : Frame → Bool
-  | js _ | ct | px | dy | pr | ji | jg | jgf | ja | jaw | jit | jy | jyf => true     -- ct / px / dy / pr are entered through a JS shim
+  | js _ | ct | px | dy | pr | ji | jg | jgf | ja | jaw | jit | jy | jyf | jiu | jgt => true     -- ct / px / dy / pr are entered through a JS shim
   | _ => false
 /-- The frame ends the propagation of a JS exception: a catch without rethrow, or an async function (its promise
 is rejected with the value instead)'. -/
-def swallows : Frame → Bool | js k => k.swallows | ja => true | fcs => true | _ => false
+def swallows : Frame → Bool | js k => k.swallows | ja => true | fcs => true | jiu => true | _ => false
 /-- A native frame that drops the error the Callable returned — also an uncatchable one. -/
 def dropsErrors : Frame → Bool | fcs => true | _ => false
 /-- The frame replaces the exception in flight by ANOTHER exception: no frame does since fix 51964d9 (before it,
 Runtime.ForOf called the iterator's return() unguarded — see `fotPrefix`). -/
-def replaces : Frame → Bool | _ => false
+def replaces : Frame → Bool | jiu => true | _ => false
 def unwraps : Frame → Bool | xfe => true | _ => false
 /-- The frame replaces the *Exception (new stack) while keeping the value. -/
-def rethrows : Frame → Bool | js k => k.rethrows | fcv => true | _ => false
+def rethrows : Frame → Bool | js k => k.rethrows | fcv => true | jgt => true | _ => false
 /-- The frame replaces the value by a GoError around a Go error that wraps the *Exception. -/
 def rewraps : Frame → Bool | rfw => true | _ => false
 /-- The rest of the chain runs later, as a promise job. -/
@@ -492,6 +496,13 @@ structure LogE where
   idx : Nat
   kind : LogKind
   deriving DecidableEq, Repr
+
+/-- generatorObject.throw(v): the value is raised inside the suspended generator through exceptionFromValue, i.e. the
+own stack of an Error object is used even if empty, else the stack is captured at the generator's yield. -/
+def genThrowTop (idx : Nat) (v : JsVal) : StackTop :=
+  match v.ownStack with
+  | some s => s
+  | none => .genYield idx
 
 /-- A JS function `function(){ try { next() } catch(e){ log; [throw e] } finally { log } }` under handleThrow. -/
 def jsFrame (idx : Nat) (k : JsKind) : Flow → Flow × List LogE
@@ -583,6 +594,24 @@ def applyFrameCore (idx : Nat) (f : Frame) (cjs : Bool) (fl : Flow) : Flow × Li
       | .ok => ((jsFrame idx .jf .normal).1, (jsFrame idx .jf .normal).2)
       | .ex e => (jsCall (jsFrame idx .jf (.panic (.exc e) .other)).1, (jsFrame idx .jf (.panic (.exc e) .other)).2)
       | .panic x o => (.panic x o, []))
+  | .jiu =>                                                              -- handleThrow closes the iterator for a JS exception; return() is
+    (match fl with                                                       --   aborted by an uncatchable error: vm.try in _restoreStacks re-panics
+      | .pending e => (.panic (.goErr e) .other, [])                     --   it, handleThrow's deferred recover (404e270) unwinds for it: the
+      | .normal => (.normal, [])                                         --   uncatchable error REPLACES the exception in flight
+      | .panic x o =>
+        match handleThrow o x [.marker] with
+        | .returned _ _ => (.panic (.goErr (.stackOverflow 8)) .other, [⟨idx, .iterReturn⟩])
+        | _ => (.panic x o, []))
+  | .jgt =>                                                              -- generatorObject.throw (func.go): the value is raised anew inside the
+    (match fl with                                                       --   suspended generator (exceptionFromValue at its yield), its finally
+      | .pending e => (.panic (.goErr e) .other, [])                     --   runs, generatorObject.step panics the exception
+      | .normal => (.normal, [])
+      | .panic x o =>
+        match handleThrow o x [.marker] with
+        | .returned e _ =>
+          (.panic (.exc ⟨e.val, genThrowTop idx e.val⟩) (.genYield idx),
+            [⟨idx, .caught e.val⟩, ⟨idx, .fin⟩])
+        | _ => (.panic x o, []))
   | .tg =>                                                               -- Runtime.Try (runtime.go) = vm.try + a deferred recover that
     (match vmTry (invoke cjs fl) with                                    --   re-panics what is not a JS exception; the frame panics ex
       | .ok => .normal
